@@ -129,7 +129,7 @@ Proof.
     destruct (first_mistyped (rtype y) rest2) eqn:Efm; inversion Hc; subst ec.
     cbn [wt]. rewrite (check_list_wt _ _ H _ Hi2), Efm. reflexivity.
   - cbn [Checker.check] in Hc. inv_bind Hc as l2 Hl2 Hc. inv_bind Hl2 as l1 Hl1 Hl2. inversion Hl2; subst l2.
-    inv_bind Hc as u Hu Hc. inversion Hc; subst ec. cbn [wt]. rewrite wt_rw. exact (IHe0_1 _ Hl1).
+    inv_bind Hc as f2 Hf2 Hc. inv_bind Hc as u Hu Hc. inversion Hc; subst ec. cbn [wt]. rewrite wt_rw. exact (IHe0_1 _ Hl1).
 Qed.
 
 (* ---------------------------------------------------------------- values and static types *)
